@@ -3,13 +3,17 @@
    predicate over lists of units (code points with u, UTF-16 code units without).  Written from the standard, not
    from validator.rs.
 
-   Shape of the predicates: `X u w r` = "the units w are an X, at a place of the pattern where the units r follow"
-   (r runs to the end of the whole pattern).  The follow context is what the grammar notation's look-ahead
-   restrictions and Annex B's ordered alternatives ("each alternative is considered only if previous production
-   alternatives do not match") speak about; only the constructors that have such a restriction constrain r.
-   `Pattern u s` = `Disjunction u s []` = s is a Pattern[U] to which no early error applies.
+   Shape of the predicates: `X u np w r k` = "the units w are an X, at a place of the pattern where the units r follow"
+   (r runs to the end of the whole pattern); np is NcapturingParens of the whole pattern and k the number of capturing
+   groups of the construct (the productions below Atom have neither, the escapes have their CharacterValue instead).
+   The follow context is what the grammar notation's look-ahead restrictions and Annex B's ordered alternatives ("each
+   alternative is considered only if previous production alternatives do not match") speak about; only the
+   constructors that have such a restriction constrain r.
+   `Pattern u s` = `exists k, Disjunction u k s [] k` = s is a Pattern[U] to which no early error applies.
 
-   FRAGMENT covered so far (everything else of §22.2.1 is absent from the predicate, see FragmentEquiv.v):
+   COVERED (ABSENT from the predicate: GroupSpecifier with a GroupName -- named groups --, `k` GroupName, the property
+   escapes `p{..}` `P{..}`, the early error "NcapturingParens >= 2^32 - 1"; FragParser.in_grammar describes the inputs
+   that avoid them):
      Pattern[U]      :: Disjunction[?U]
      Disjunction[U]  :: Alternative[?U]  |  Alternative[?U] `|` Disjunction[?U]
      Alternative[U]  :: [empty]  |  Alternative[?U] Term[?U]
@@ -24,7 +28,7 @@
         early error:    `{` DecimalDigits `,` DecimalDigits `}` with MV of the first DecimalDigits larger than the MV of the second
      DecimalDigits   :: DecimalDigit | DecimalDigits DecimalDigit          (with its MV, an unbounded natural number)
      Atom[U]         :: PatternCharacter | `.` | `\` AtomEscape[?U] | CharacterClass[?U] | `(` Disjunction[?U] `)` | `(?:` Disjunction[?U] `)`
-                        (GroupSpecifier is [empty]: no named groups in the fragment)
+                        (GroupSpecifier is [empty]: no named groups)
      ExtendedAtom    :: `.` | `\` AtomEscape[~U] | CharacterClass[~U] | `(` Disjunction[~U] `)` | `(?:` Disjunction[~U] `)`
                       | InvalidBracedQuantifier | ExtendedPatternCharacter
      InvalidBracedQuantifier :: `{` DecimalDigits `}` | `{` DecimalDigits `,}` | `{` DecimalDigits `,` DecimalDigits `}`
